@@ -1,6 +1,6 @@
 /-
   Asn1.Constraint — executable model of pyasn1/type/constraint.py (as it is after the /repo fixes
-  9506346 `ConstraintsIntersection.isSuperTypeOf`, 44f81e4 `ContainedSubtypeConstraint._setValues`,
+  9506346 + 8bf629a `ConstraintsIntersection.isSuperTypeOf`, 44f81e4 `ContainedSubtypeConstraint._setValues`,
   18cf487 `subtype()` wraps a non-intersection subtypeSpec), of the constraint-related parts of
   type/base.py (`SimpleAsn1Type.__init__/clone/subtype`, `Asn1Type.isSameTypeWith/isSuperTypeOf`),
   of the subtype check in univ.py `setComponentByPosition` and of the `isInconsistent` gate in
@@ -489,12 +489,24 @@ end
 def baseIsSuperTypeOf (self other : Constr) : Bool :=
   !self.truthy || pyEq other self || decide (self ∈ valueMap other)
 
-/-- the loop of `ConstraintsIntersection.isSuperTypeOf` (fix 9506346): every truthy operand is
-    `==` the other constraint or is in its value map -/
+mutual
+/-- `ConstraintsIntersection._isImposedBy(constraint, other)` (fix 8bf629a): `constraint == other`,
+    or `other` is an intersection and one of its operands imposes it.  Unions are not entered. -/
+def imposedBy (c : Constr) : Constr → Bool
+  | .mk k ops => pyEq c (.mk k ops) || (k == .intersection && imposedByOps c ops)
+def imposedByOps (c : Constr) : Ops → Bool
+  | .nil => false
+  | .con d rest => imposedBy c d || imposedByOps c rest
+  | .raw _ rest => imposedByOps c rest
+  | .field _ _ rest => imposedByOps c rest
+  | .entry _ _ _ rest => imposedByOps c rest
+end
+
+/-- the loop of `ConstraintsIntersection.isSuperTypeOf` (fixes 9506346, 8bf629a): every truthy
+    operand is imposed by the other constraint -/
 def imposedAll : Ops → Constr → Bool
   | .nil, _ => true
-  | .con c rest, other =>
-    (!c.truthy || pyEq c other || decide (c ∈ valueMap other)) && imposedAll rest other
+  | .con c rest, other => (!c.truthy || imposedBy c other) && imposedAll rest other
   | .raw _ _, _ => false
   | .field _ _ _, _ => false
   | .entry _ _ _ _, _ => false
@@ -524,6 +536,15 @@ def deriveOpt (c : Constr) : Option Constr → Constr
 def deriveChain (parent : Constr) : List Constr → Constr
   | [] => parent
   | e :: es => deriveChain (derive parent e) es
+
+/-- `ConstructedAsn1Type._moveSizeSpec` (after fixes 9bc6b88, aaa101a): a legacy `sizeSpec` is added to the
+    subtypeSpec unless the subtypeSpec already imposes it (cloning passes the moved one back in) -/
+def moveSizeSpec (subtypeSpec sizeSpec : Constr) : Constr :=
+  if !sizeSpec.truthy then subtypeSpec
+  else if !subtypeSpec.truthy then derive subtypeSpec sizeSpec
+  else if !isSuperTypeOf (.mk .intersection (.con sizeSpec .nil)) subtypeSpec then
+    .mk .intersection (.con subtypeSpec (.con sizeSpec .nil))
+  else subtypeSpec
 
 /-! ## types: tags + constraints (`Asn1Type.isSameTypeWith / isSuperTypeOf`, `subtype`) -/
 
@@ -703,6 +724,11 @@ def handle : List Sexp → Option String
       let e ← constrOf e
       let child ← constrOf child
       some s!"ok {b01 (decide (derive p e = child))}"
+  | [.atom "CONSTR_MOVESIZE", st, sz, res] => do
+      let st ← constrOf st
+      let sz ← constrOf sz
+      let res ← constrOf res
+      some s!"ok {b01 (decide (moveSizeSpec st sz = res))}"
   | [.atom "CONSTR_GATE", c, v] => do
       let c ← constrOf c
       let v ← cvalOf v
